@@ -230,6 +230,9 @@ def gen_file_scenario(rng, mode, allow_odd=True):
     if mode == 'peer':
         sc['out'] = rng.choice(['text', 'text', 'json', 'policy-text', 'policy-json'])
         argv += {'text': [], 'json': ['-j'], 'policy-text': ['-P', '@POLICY@'], 'policy-json': ['-P', '@POLICY@', '-j']}[sc['out']]
+        if sc['out'] == 'text':
+            # the label is part of every text report of a -T run, whatever the presentation options (it is printed regardless of the minimum level)
+            argv += rng.choice([[], [], ['-l', 'warn'], ['-l', 'fail'], ['-b'], ['-b', '-l', 'warn']])
     sc['argv'] = argv
     return sc
 
